@@ -159,9 +159,9 @@ func (node *Node) outputBindingInfo(fork ForkId) []BindingInfo {
 		fm := fork.SourceIndexMap()
 		result := make([]BindingInfo, len(members))
 		for i, member := range members {
+			result[i].Id = member.Id
 			rb, err := ro.BindingPath(member.Id, fm, node.top.types)
 			if err == nil {
-				result[i].Id = member.Id
 				result[i].Type = rb.Type.TypeId()
 				if refs, err := rb.FindRefs(node.top.types); err != nil {
 					panic(err)
